@@ -52,6 +52,21 @@ def curveTangent (fl : α → Int) (pts : List (List α)) (t : α) : Option (Lis
   | _, _, _, _ => none
 end
 
+/-- What a list of rays (point, direction) denotes as a piecewise cubic (cubic Hermite data, the
+tangent at a knot being three times the direction): between consecutive rays `(p, v)`, `(q, w)` the
+Bézier segment with control points `p, p + v, q − w, q`. -/
+def hermiteSegments {α : Type} [Add α] [Sub α] :
+    List (List α × List α) → List (List α × List α × List α × List α)
+  | (p, v) :: (q, w) :: rest =>
+    (p, List.zipWith (· + ·) p v, List.zipWith (· - ·) q w, q) :: hermiteSegments ((q, w) :: rest)
+  | _ => []
+
+/-- The control polygon of that piecewise cubic: segments joined at their shared end points. -/
+def hermitePoints {α : Type} [Add α] [Sub α] (rays : List (List α × List α)) : List (List α) :=
+  match hermiteSegments rays with
+  | [] => []
+  | (p0, p1, p2, p3) :: rest => p0 :: p1 :: p2 :: p3 :: rest.flatMap fun s => [s.2.1, s.2.2.1, s.2.2.2]
+
 /-- The trace of a bisection with depth bound `dep` over `[a,b]` driven by a list of halt
 answers (consumed in call order, none at depth 0): the emitted intervals with their remaining
 depth, and the unread answers. `mid` is the bisection point. -/
